@@ -146,6 +146,12 @@ func main() {
 	fs = append(fs, finding{Property: "C15", ID: "KF2-gofmt-miscounts-lines-after-form-feed-in-comment", Status: "known", What: kf2What, Line: "known: property=C15 " + kf2What,
 		Check: "known_finding_probe", Example: raw(map[string]interface{}{"headers": []string{"HDR0X ", "HDR1X \fA"}, "package": nil, "canonical": "", "body": false})})
 
+	kf3What := "a Comment whose text, written behind \"// \", reads as an old-style build constraint line, e.g. Id(\"F\").Int().Comment(\"+build linux\") as a field of a Struct: gofmt's build-constraint fix-up (go/printer fixGoBuildLines) takes the comment for a constraint of the file wherever it stands, moves it in front of the package clause under a synthesised //go:build line and deletes the rest of the line it stood on together with the line break, so the formatted output reads `F int  G int` (two lines of code joined; with a form feed in the text the comment is cut in two and tabwriter control bytes stay in the output); File.Render returns nil, the unformatted output is right and gofmt does the same to a hand-written file"
+	fs = append(fs, finding{Property: "C15", ID: "KF3-gofmt-hoists-plus-build-comment-and-joins-lines", Status: "known", What: kf3What, Line: "known: property=C15 " + kf3What,
+		Check: "known_finding_probe_body", Example: raw(map[string]interface{}{
+			"file": &recipe.File{Ctor: "NewFile", Args: p, Body: []*recipe.Node{recipe.S().C("Type").C("Id", "S").C("Struct", recipe.Id("F").C("Int"), recipe.Id("G").C("Int"))}},
+			"dec":  map[string]interface{}{"rec": []int{0}}, "texts": []string{"+build linux"}})})
+
 	out := map[string]interface{}{
 		"comment":  "Genuine findings made by the checks. status=fixed: a defect of dave/jennifer on the pinned tree, repaired by the named fix: commit in /repo; the example is replayed on every run and must pass (it suppresses nothing). status=known: recorded, not repaired (see DESIGN.md section 11.3): the check prints KNOWN-FINDING while the example still fails, the generators steer away from exactly that input class (internal/knownfind) and count what they avoided; any other violation of the property is still reported.",
 		"findings": fs,
